@@ -83,12 +83,12 @@ type KV struct {
 	Val Value  `json:"val"`
 }
 
-func S(s string) Value    { return Value{K: VStr, S: s} }
-func I(i int64) Value     { return Value{K: VInt, I: i} }
-func B(b bool) Value      { return Value{K: VBool, B: b} }
-func L(v ...Value) Value  { return Value{K: VList, L: v} }
-func M(kv ...KV) Value    { return Value{K: VMap, M: kv} }
-func Raw(s string) Value  { return Value{K: VRaw, S: s} }
+func S(s string) Value   { return Value{K: VStr, S: s} }
+func I(i int64) Value    { return Value{K: VInt, I: i} }
+func B(b bool) Value     { return Value{K: VBool, B: b} }
+func L(v ...Value) Value { return Value{K: VList, L: v} }
+func M(kv ...KV) Value   { return Value{K: VMap, M: kv} }
+func Raw(s string) Value { return Value{K: VRaw, S: s} }
 func SL(s ...string) Value {
 	v := Value{K: VList}
 	for _, x := range s {
